@@ -855,7 +855,7 @@ def nonzero_guard(f, bb, divisor_op):
         if copy_sources(f, op_base(val)) != src:
             continue
         # now the test reads `x <op> c`
-        true_nz = (op == "Eq" and c >= 1) or op == "Gt" or (op == "Ge" and c >= 1)
+        true_nz = (op == "Eq" and c >= 1) or op == "Gt" or (op == "Ge" and c >= 1) or (op == "Ne" and c == 0)
         false_nz = (op == "Ne" and c >= 1) or (op == "Lt" and c >= 1) or op == "Le" or (op == "Eq" and c == 0)
         if true_nz and requires(f, bb, ts):
             return True, "guarded by `x %s %d`" % (op, c)
